@@ -81,7 +81,11 @@ def run(t):
     finally:
         shutil.rmtree(d, ignore_errors=True)
     # classification across the real RPC boundary, cookie gate, pinning
-    o = parse_vh_json(run_vh(vh, ["worker-classify"], timeout=300), "classify")
+    dc = scratch("c15c")   # (a failing run of the engine exits without removing its directory)
+    try:
+        o = parse_vh_json(run_vh(vh, ["worker-classify"], timeout=300, env={"VERIF_TMP": dc}), "classify")
+    finally:
+        shutil.rmtree(dc, ignore_errors=True)
     _absorb(run, o)
     run.cov["rule"] = (f"all {nretry} complete behaviours of {cfg} (limit x per-attempt outcome sequence x cancellation point) replayed "
                        "concurrently on token/worker doRetry against a scripted endpoint: attempts counted at the endpoint, back-off "
